@@ -126,12 +126,17 @@ def check(run):
             fn = store_prims(it)[name][2]
             b = filled(it, f)
             fits = f + k <= 1023
+            n_und = len(it.pathcond)
             try:
                 fn(b)
                 ok = True
             except RaiseEx as e:
                 ok = False
                 exc = e
+            if len(it.pathcond) > n_und:
+                # fill and size are constants: an outcome that rests on a condition the interpretation could not decide (a length it does
+                # not know, say) is no outcome - neither an acceptance nor a refusal is reported from it
+                raise AnalysisError(f'{name} at fill {f}: the outcome depends on undecided condition(s) {[d for d, _ in it.pathcond[n_und:]][:3]}')
             run.evaluations += 1
             after = nbits(it, b)
             cons = f'Builder.{name.split("(")[0]}'
